@@ -303,7 +303,7 @@ CHECKS = {
         technique="Lean 4 refinement of system_init to a function of the metadata union + metamorphic differential runs of ovniemu",
         design="DESIGN.md §5 C15"),
     "C16": dict(
-        text=("Theorems (Props/C16.lean, 18) over a transcription of ovnisort.c (ring arithmetic, find_destination, OU[/OU] region "
+        text=("Theorems (Props/C16.lean, 22) over a transcription of ovnisort.c (ring arithmetic, find_destination, OU[/OU] region "
               "automaton, execute_sort_plan with an abstract qsort, ring_check, -c mode): under the explicit decidable "
               "preconditions (only marked regions unsorted, destination within the look-back window, clocks < 2^63) the run "
               "succeeds, keeps the total size, outputs a permutation of the input events with bytes unchanged and "
@@ -311,10 +311,14 @@ CHECKS = {
               "the output is a permutation in every outcome (permutation_always); everything before the first executed plan "
               "is untouched (prefix_untouched, prefix_bytes_untouched); with a stable qsort equal clocks keep their order and "
               "the result equals a stable sort of the whole stream (equal_clock_order_preserved, winsort_eq_stable_sort); a "
-              "sorted stream is returned unchanged (idempotent); -c passes exactly on sorted non-empty streams and the "
+              "stream that is already sorted is left byte-identical with exit 0 for every look-back >= 1 and any regions "
+              "(sorted_input_noop, idempotent), so the second and every further run after a successful sort is a successful "
+              "no-op (second_run_noop, every_rerun_noop); the in-place shortcut of the repaired code never changes what the sort "
+              "would have written (in_place_skip_exact); the failure before the repair is kept as a decide witness "
+              "(second_run_fails_before_fix); -c passes exactly on sorted non-empty streams and the "
               "emulator's clock test accepts the result (streamCheck_iff, check_passes, emulator_accepts_sorted); no "
               "destination means an error, never success (fails_loudly). Tie: the real ovnisort [-n N], ovnisort -c, a "
-              "second ovnisort run and ovniemu -l on Python-written streams, byte-compared with the Lean model (drv_ovnisort) "
+              "second and a third ovnisort run (hard requirement: exit 0, bytes unchanged) and ovniemu -l on Python-written streams, byte-compared with the Lean model (drv_ovnisort) "
               "and checked by an independent stable-sort oracle; thorough adds all streams of <= 4 events."),
         note=TB + "; qsort is a parameter (sorted permutation; stability a named hypothesis, satisfied by insertion sort and by "
              "glibc's merge sort); -n 0 out of scope; the private mapping observes the tool's own pwrite",
